@@ -56,6 +56,10 @@ func (o *orch) runReplay(rc *replayCase) {
 	for _, name := range motifCounter {
 		o.c.Count(name, 1<<20)
 	}
+	for _, name := range hostCounter {
+		o.c.Count(name, 1<<20)
+	}
+	o.c.Count("host|re-upload-between-kernels", 1<<20)
 	for i := 0; i < 500; i++ {
 		o.c.Nontrivial(fmt.Sprintf("replay-%d", i))
 	}
@@ -462,6 +466,16 @@ func (o *orch) keyFor(j *job, ts PlatSpec, variant, diff string, t, tfRun runOut
 		wit["first_divergence"] = fd
 	}
 	feature := strings.TrimPrefix(j.scope, "probe:")
+	if strings.HasPrefix(j.scope, "probe:") && (strings.HasPrefix(feature, "host_") || feature == "reup") {
+		// the probe of a host-API shape: the shape is part of the key (the same
+		// symptom under another shape is another finding)
+		prefix += "|host:" + feature
+		if j.prog != nil {
+			if pg, err := BuildProgram(*j.prog); err == nil {
+				wit["host_shape"] = map[string]any{"shape": pg.Host, "buffers_allocated_through_copying_context": pg.AllocOther, "reupload_after_kernel": pg.ReupAfter}
+			}
+		}
+	}
 	// ---- white-box flag: a wavefront's VGPRs do not fit the per-lane window
 	for _, f := range append(append([]string{}, t.flags...), tfRun.flags...) {
 		if strings.HasPrefix(f, "vgpr-window-overflow") {
